@@ -164,7 +164,8 @@ def check(R, F):
         inline = c_time
         # ... or as `loaded.mtime.map(|l| mtime <= l).unwrap_or(false)`
         if not c_time:
-            c_time = any(re.match(r'^Option::unwrap_or\(Option::map\(arg2@Some\.0@Loaded\.1\.mtime,check_mtime::\{closure#\d+\}\{%s\}\),false\) not in \[0\]$' % FILE_MT, x) for x in conj)
+            c_time = any(re.match(r'^Option::unwrap_or\(Option::map\(arg2@Some\.0@Loaded\.1\.mtime,check_mtime::\{closure#\d+\}\{%s\}\),false\) not in \[0\]$' % FILE_MT, x)
+                         or re.match(r'^Option::(map_or|is_some_and)\(arg2@Some\.0@Loaded\.1\.mtime,(false,)?check_mtime::\{closure#\d+\}\{%s\}\) not in \[0\]$' % FILE_MT, x) for x in conj)
         R.require(c_loaded and c_path and c_time and c_ok, 'mtime', Z + 'check_mtime|reuse-conditions', ck.where(b),
                   'reuse only under Loaded && same path && mtime <= loaded mtime', 'the reuse arm is guarded by Loaded=%s same-path=%s mtime-test=%s metadata-ok=%s; guards %s' % (c_loaded, c_path, c_time, c_ok, g))
         # the comparison is mtime <= loaded_mtime
